@@ -68,6 +68,11 @@ func allTrackNames(maxLen int) []string {
 
 const preCommented = "# a comment line\n[attr]mymacro text eol=lf\n*.txt mymacro\n\n*.md text\n"
 
+// probes for the assignments of the patterns that were in .gitattributes beforehand
+var otherProbes = []string{"x.txt", "y.md", "z.other", "w.zz"}
+
+const preOneLine = "*.zz filter=lfs diff=lfs merge=lfs -text" // a file of a single line that is not terminated
+
 // checkAttr returns the set of names with filter=lfs and a digest of the other probes' attributes.
 func checkAttr(env *gitenv.Env, repo string, names []string) (map[string]bool, string, error) {
 	var in bytes.Buffer
@@ -75,7 +80,7 @@ func checkAttr(env *gitenv.Env, repo string, names []string) (map[string]bool, s
 		in.WriteString(n)
 		in.WriteByte(0)
 	}
-	for _, n := range []string{"x.txt", "y.md", "z.other"} {
+	for _, n := range otherProbes {
 		in.WriteString(n)
 		in.WriteByte(0)
 	}
@@ -88,7 +93,7 @@ func checkAttr(env *gitenv.Env, repo string, names []string) (map[string]bool, s
 	var others []string
 	for i := 0; i+2 < len(parts); i += 3 {
 		path, attr, val := parts[i], parts[i+1], parts[i+2]
-		if path == "x.txt" || path == "y.md" || path == "z.other" {
+		if path == "x.txt" || path == "y.md" || path == "z.other" || path == "w.zz" {
 			others = append(others, path+":"+attr+"="+val)
 			continue
 		}
@@ -116,6 +121,12 @@ func replayTrack(c *core.Ctx, lfsBin string, b *trackBehaviour, idx int, names [
 		os.WriteFile(attrs, []byte(preCommented), 0o644)
 	case "crlf":
 		os.WriteFile(attrs, []byte(strings.ReplaceAll(preCommented, "\n", "\r\n")), 0o644)
+	case "noeol": // the last line is not terminated
+		os.WriteFile(attrs, []byte(strings.TrimSuffix(preCommented, "\n")), 0o644)
+	case "oneline": // one unterminated line that tracks another pattern
+		os.WriteFile(attrs, []byte(preOneLine), 0o644)
+	case "oneline-plain": // one unterminated line without any LFS attribute
+		os.WriteFile(attrs, []byte("*.md text"), 0o644)
 	}
 	_, othersBefore, err := checkAttr(env, repo, nil)
 	if err != nil {
@@ -279,7 +290,7 @@ func init() {
 		c.Set("evaluations", len(bs)+ndirs)
 		c.Set("distinct_nontrivial", len(bs))
 		c.Set("probe_names", len(names))
-		c.Set("rule", "behaviours = per-edge output of spec/Track.tla (sequences of <= MaxOps track/untrack operations over all names of <= MaxLen characters from 13 character classes and 4 glob patterns, 3 pre-existing .gitattributes classes); every one-step behaviour is replayed, two-step ones stratified by (ops, pre-class, character classes); after each step git check-attr is asked about every name")
+		c.Set("rule", "behaviours = per-edge output of spec/Track.tla (sequences of <= MaxOps track/untrack operations over all names of <= MaxLen characters from 13 character classes and 4 glob patterns, 6 pre-existing .gitattributes classes: absent, comments and macros with LF or CRLF, last line unterminated, a single unterminated line with or without LFS attributes); every one-step behaviour is replayed, two-step ones stratified by (ops, pre-class, character classes); after each step git check-attr is asked about every name")
 		for i := 0; i < len(bs); i += len(bs)/4 + 1 {
 			c.Sample(json.RawMessage(bs[i].raw))
 		}
